@@ -8,6 +8,7 @@ cfg keys (all optional):
                  known finding by construction
     max_schemas  1..3 (default 3)           size     0 small .. 2 large (default 1)
     remarks      sprinkle remarks (default True)
+    fast         one Hypothesis draw per file seeds a random.Random for all other choices (no shrinking; see G.__init__)
 
 Validity (what ISO 10303-11 demands AND what this front end accepts; calibrated against check-express):
   * every identifier is declared; names are unique per file (no shadowing), never a reserved word
@@ -177,13 +178,23 @@ class G:
         self.names = Namer(self)
         self.tags = set()
         self.budget = 0
+        # cfg["fast"]: ONE Hypothesis draw (a 63 bit integer) per file seeds a random.Random that makes all further
+        # choices.  ~15x faster and every example is independent of the previous one (the engine's mutation step
+        # otherwise produces families of near-identical files), at the price of Hypothesis shrinking - for bulk
+        # exploration with an own minimiser (C07).  Default: every choice is a Hypothesis draw.
+        self.rnd = None
+        if cfg.get("fast"):
+            import random
+            self.rnd = random.Random(draw(st.integers(0, 2 ** 63 - 1)))
 
     # ---- primitive draws
     def i(self, lo, hi):
+        if self.rnd is not None:
+            return self.rnd.randint(lo, hi)
         return self.draw(st.integers(lo, hi))
 
     def p(self, pct):
-        return self.draw(st.integers(0, 99)) < pct
+        return self.i(0, 99) < pct
 
     def pick(self, seq):
         return seq[self.i(0, len(seq) - 1)]
